@@ -69,6 +69,10 @@ CHECKS = {
    technique="TLA+ reference model of directory reading (Readdir.tla) checked by TLC; its complete LTS replayed on the real p9p.Readdir (directly and via Session.Read on a directory fid) with the returned bytes compared; client-side listing over a real connection at forced msizes",
    text="TLC enumerates all listings of <=3/4 entries over 3/4 sizes, all partitions into iterator batches, all sequences of reads (sizes >= largest entry) incl. reads at wrong offsets, and checks offset = size of the delivered prefix, progress, whole entries within the requested size, empty reads at the end. Every transition is executed on the real Readdir and through an SFileSys session; the bytes must be the concatenated encodings of exactly the predicted entries. The client half lists 0..80-entry directories through CFileSys over ServeConn at msize = largest+11, +12, ... 65536 and must obtain exactly the server's entries.",
    note="Trusted: Readdir.tla; the codec for the expected encodings (decided by C01). Bounds: <=4 entries in the LTS; longer listings only in the seeded client half."),
+ "C18": dict(engine="ramfs", cat="model_checking", ref="5 C18",
+   technique="TLA+ reference model of ramfs as a tree of byte arrays with handles and parent chains (RamFS.tla) checked by TLC; its LTS (exhaustive small instance) and TLC-simulated behaviours (two sessions) replayed on the real ramfs behind SFileSys with full tree comparison; concurrent sessions under the race detector",
+   text="TLC checks tree shape, leaf files, live handles for every interleaving (at operation granularity) of attach/walk incl. '..'/create/open/read/write/truncate/list/remove/clunk by 1-2 sessions, with symbolic 64-bit offsets. Every emitted transition is executed on a fresh ramfs server: result class, bytes read, listing, walk qid, the whole live tree (hook VerifTree) and the node each fid denotes are compared after each step; nref = parent links (hook VerifValidate) whenever no fid is bound and at the end of each history; any panic is a violation. Truly concurrent sessions run 30-150 rounds (no panic, final refcounts) and, thorough, under the Go race detector.",
+   note="Trusted: RamFS.tla; the verif-tagged hooks in ramfs/verif_on.go (read-only views + fresh server). Concurrency is not checked for linearizability against the model (operation-granularity interleavings are covered by the two-session model runs executed sequentially)."),
 }
 
 NA_REASON = "check not built yet in this round; planned per DESIGN.md section 5 (specification exists or is planned, no verdict is claimed)"
@@ -100,7 +104,7 @@ def main():
             "guard": "verif",
             "enable": "go build -tags verif (harness module /verif/harness with replace github.com/frobnitzem/go-p9p => /repo)",
             "baseline_off_cmd": "cd /repo && GOPROXY=off GOSUMDB=off GOTOOLCHAIN=local go test -json -vet=off -count=1 -timeout 25m ./...",
-            "source_commits": [],
+            "source_commits": ["a0fcae6 verif hook: ramfs.NewTestServer, VerifValidate, VerifTree (new file ramfs/verif_on.go, //go:build verif)"],
             "add_only": True,
         },
         "engines": [{"name": e, "path": "specs/%s + harness/engines" % e, "serves_properties": sorted(p),
